@@ -59,7 +59,11 @@ func (n *LabeledExpressionNode) String() string {
 	var buff strings.Builder
 
 	buff.WriteRune('$')
-	buff.WriteString(n.Label)
+	if PrefixedIdentifierRegexp.MatchString(n.Label) {
+		buff.WriteString(n.Label)
+	} else {
+		buff.WriteString(value.String(n.Label).Inspect())
+	}
 	buff.WriteString(": ")
 
 	parens := ExpressionPrecedence(n) > ExpressionPrecedence(n.Expression)
